@@ -22,7 +22,7 @@ field_type('OneNestForNestedLogit', 'nest_param', 'Expression')
 _NS = 'self.tuple_of_nests'
 # ASSUMED (decided by the bounded stand-in bounded/c05_nests_native.py, mode partition): check_partition accepts only
 # pairwise disjoint nests that do not meet the alternatives left alone
-contract('biogeme.nests.NestsForNestedLogit.check_partition', P, verify=False, modifies=[], returns='tuple[bool, str]',
+contract('biogeme.nests.NestsForNestedLogit.check_partition', P, verify=False, pure=True, returns='tuple[bool, str]',
          ensures={'accepted_means_partition': 'implies(result[0], c05c_partition(self))',
                   'accepted_means_disjoint':
                   f"implies(result[0], forall(lambda a: forall(lambda b: implies(a != b, forall(lambda p: forall(lambda r: "
@@ -116,9 +116,12 @@ for V, av, fam, ch in cands:
         break
 '''
 
+_NOT_OK = 'not nests.check_partition()[0]'
 contract(M + 'get_mev_for_nested', P, nla_uf=True, replay=_REPLAY_NESTED,
          types={'util': 'dict[int, Expression]', 'availability': 'dict[int, Expression] | None', 'nests': 'NestsForNestedLogit'},
-         requires=_REQ, modifies=[], may_raise=['BiogemeError'],
+         requires=_REQ, modifies=[],
+         # BiogemeError exactly when the nests are rejected by check_partition (a valid structure never raises)
+         raises={'BiogemeError': _NOT_OK},
          ensures={'domain_alone': _DOM_ALONE.replace('log_gi', 'result'),
                   'domain_nests': _DOM_K.replace('log_gi', 'result').replace('_k', f'len({T})'),
                   'nest_terms': _VAL_K.replace('log_gi', 'result').replace('_k', f'len({T})'),
@@ -213,8 +216,9 @@ def _reduces(wrap: bool) -> dict:
 for fn, wrap in (('lognested', False), ('nested', True)):
     contract(M + fn, ['C05', 'C06'], nla_uf=True,
              types={'util': 'dict[int, Expression]', 'availability': 'dict[int, Expression] | None', 'nests': 'NestsForNestedLogit'},
-             requires=_REQ_L, modifies=[], may_raise=['BiogemeError'],
-             raises={'TypeError': N._NOT_OPERAND.format('choice')},
+             requires=_REQ_L, modifies=[],
+             raises={'BiogemeError': _NOT_OK,
+                     'TypeError': f"not ({_NOT_OK}) and ({N._NOT_OPERAND.format('choice')})"},
              # the reduction to logit is stated on the log version (the probability version is exp of it: closed form below)
              hints=(_STEPS + [_STEP_ONE, _STEP_ONE_B]) if not wrap else _STEPS,
              ensures={**_closed_form(wrap), **(_reduces(wrap) if not wrap else {})},
